@@ -435,9 +435,18 @@ def on_crash(spec, status):
     one-thread reference of the same workload instance completes"""
     from cidersim.driver import run_pool
 
+    import signal
+    import time
+
     ref_only = dict(spec, scheds=[])
+    t0 = time.time()
     r = run_pool([ref_only], run_case, nproc=1, case_timeout=CASE_TIMEOUT, init=lambda: init_group(spec["group"]))[0]
+    t_ref = time.time() - t0
     if r is None or "crashed" in r or "harness_error" in r:
+        return None
+    if os.WIFSIGNALED(status) and os.WTERMSIG(status) == signal.SIGALRM and t_ref > CASE_TIMEOUT / 20.0:
+        # two watchdog kills, but the reference alone is slow as well: a loaded machine or a
+        # heavy instance, not evidence of a hang under a schedule
         return None
     key = "schedule:%s:*:crash" % spec["workload"]
     rp = {"property": PROP, "engine": "simgomp", "case": spec, "violation": {"key": key}}
